@@ -1446,3 +1446,83 @@ pub fn tape_strategy(max_len: usize) -> proptest::strategy::BoxedStrategy<Vec<u3
     use proptest::prelude::*;
     proptest::collection::vec(any::<u32>(), 8..max_len).boxed()
 }
+
+// ------------------------------------------------------------------------------------------
+// expression positions (C05, C24): pre-order walk over every expression node of a program
+
+fn walk_expr(e: &mut Expr, depth: usize, f: &mut dyn FnMut(&mut Expr, usize) -> bool) -> bool {
+    if f(e, depth) {
+        return true;
+    }
+    match e {
+        Expr::Bin(_, l, r) | Expr::Index(l, r) | Expr::In(l, r) => walk_expr(l, depth + 1, f) || walk_expr(r, depth + 1, f),
+        Expr::Not(x) | Expr::Neg(x) | Expr::Ascribe(x, _) => walk_expr(x, depth + 1, f),
+        Expr::Call(_, pos, kw) => pos.iter_mut().any(|x| walk_expr(x, depth + 1, f)) || kw.iter_mut().any(|(_, x)| walk_expr(x, depth + 1, f)),
+        Expr::CallSpread(_, a, b) => a.iter_mut().any(|x| walk_expr(x, depth + 1, f)) || b.iter_mut().any(|x| walk_expr(x, depth + 1, f)),
+        Expr::Builtin(_, a) | Expr::List(a) | Expr::PrintCall(a) => a.iter_mut().any(|x| walk_expr(x, depth + 1, f)),
+        Expr::Method(r, _, a) => walk_expr(r, depth + 1, f) || a.iter_mut().any(|x| walk_expr(x, depth + 1, f)),
+        Expr::MethodKw(r, _, a, kw) => walk_expr(r, depth + 1, f) || a.iter_mut().any(|x| walk_expr(x, depth + 1, f)) || kw.iter_mut().any(|(_, x)| walk_expr(x, depth + 1, f)),
+        Expr::If(c, a, b) => walk_expr(c, depth + 1, f) || walk_expr(a, depth + 1, f) || walk_expr(b, depth + 1, f),
+        Expr::Interp(parts) => parts.iter_mut().any(|(_, e)| e.as_mut().map(|x| walk_expr(x, depth + 1, f)).unwrap_or(false)),
+        _ => false,
+    }
+}
+
+fn walk_stmts(stmts: &mut [Stmt], depth: usize, f: &mut dyn FnMut(&mut Expr, usize) -> bool) -> bool {
+    for s in stmts.iter_mut() {
+        let hit = match s {
+            Stmt::Let { e, .. } => walk_expr(e, depth, f),
+            Stmt::Print(v) => v.iter_mut().any(|x| walk_expr(x, depth, f)),
+            Stmt::Func { params, body, result, .. } => {
+                params.iter_mut().any(|p| p.default.as_mut().map(|d| walk_expr(d, depth + 1, f)).unwrap_or(false)) || walk_stmts(body, depth + 1, f) || walk_expr(result, depth + 1, f)
+            }
+            Stmt::Lambda { body, .. } => walk_expr(body, depth + 1, f),
+            Stmt::ForRange { body, .. } => walk_stmts(body, depth + 1, f),
+            Stmt::ForList { list, body, .. } => walk_expr(list, depth, f) || walk_stmts(body, depth + 1, f),
+            Stmt::While { body, .. } => walk_stmts(body, depth + 1, f),
+            Stmt::IfStmt { cond, then, els, .. } => walk_expr(cond, depth, f) || walk_stmts(then, depth + 1, f) || els.as_mut().map(|e| walk_stmts(e, depth + 1, f)).unwrap_or(false),
+            Stmt::PatList { elems, .. } | Stmt::PatTuple { elems, .. } => elems.iter_mut().any(|x| walk_expr(x, depth, f)),
+            Stmt::Assert(e) => walk_expr(e, depth, f),
+            Stmt::ProcDef { prints, result, .. } => prints.iter_mut().any(|x| walk_expr(x, depth + 1, f)) || walk_expr(result, depth + 1, f),
+            Stmt::LetBlock { body, result, .. } => walk_stmts(body, depth + 1, f) || walk_expr(result, depth + 1, f),
+            Stmt::Seq(v) | Stmt::Group(v) => walk_stmts(v, depth, f),
+            Stmt::Exit(_) => false,
+        };
+        if hit {
+            return true;
+        }
+    }
+    false
+}
+
+impl Program {
+    pub fn count_exprs(&mut self) -> usize {
+        let mut n = 0;
+        walk_stmts(&mut self.stmts, 0, &mut |_, _| {
+            n += 1;
+            false
+        });
+        n
+    }
+    /// replaces the `k`-th expression node (pre-order) by `new`; returns its nesting depth
+    pub fn replace_expr(&mut self, k: usize, new: Expr) -> Option<usize> {
+        let mut n = 0;
+        let mut at = None;
+        let mut new = Some(new);
+        walk_stmts(&mut self.stmts, 0, &mut |e, d| {
+            if n == k {
+                *e = new.take().unwrap();
+                at = Some(d);
+                return true;
+            }
+            n += 1;
+            false
+        });
+        at
+    }
+}
+
+/// an expression given verbatim in both languages (C05 injections)
+pub fn raw(erg: &str) -> Expr {
+    Expr::Var(erg.to_string())
+}
